@@ -195,10 +195,34 @@ def check_encode(rule: dict) -> dict:
     vpn = bool(rule['rd'])
     classes = [f'afi:{"ipv4" if afi == 1 else "ipv6"}', f'form:{rule["form"]}']
     try:
+        want_value = model.expected_value_bytes(rule)
+    except ValueError:
+        want_value = None  # the probe: a value no one octet component can carry
+    expected = model.expected_components(rule)
+
+    def refused_for_size(why: str):
+        """the rule was refused as too long (by pack_nlri, or by the configuration loader which packs it): right above 4095 only"""
+        if want_value is None:
+            return None
+        if len(want_value) > 4095:
+            return {'nontrivial': True, 'classes': classes + ['too-long:refused']}
+        # the whole-prefix layout of an IPv6 prefix with an offset is longer than the RFC one: the refusal is that deviation again
+        grown = sum((w[4] + 7) // 8 - (w[4] - w[2] + 7) // 8 for _, w in expected if isinstance(w, tuple) and afi == 2)
+        if grown and len(want_value) + grown >= 4095:
+            raise Violation('encode:ipv6-offset-pattern', f'{len(want_value)} octets per RFC 8956 grow by {grown} with the whole prefix behind <length, offset>, then refused: {why[:200]}')
+        if len(want_value) == 4095:
+            raise Violation('encode:length-4095-refused', f'a rule of exactly 4095 octets is refused: {why[:200]}')
+        return None
+
+    try:
         routes, reason = parse_text(section, text)
     except Exception as exc:  # noqa: BLE001 - an exception out of the parser is C18's subject
         return {'nontrivial': False, 'classes': classes + [f'parse-exception:{type(exc).__name__}']}
     if routes is None:
+        if 'larger than encoding allows' in reason:
+            verdict = refused_for_size(reason.strip().replace('\n', ' '))
+            if verdict:
+                return verdict
         return {'nontrivial': False, 'classes': classes + [refusal_class(rule, reason)]}
     if len(routes) != 1:
         raise Violation('encode:route-count', f'{len(routes)} routes for "{text[:300]}"')
@@ -206,23 +230,11 @@ def check_encode(rule: dict) -> dict:
     nlri = route.nlri
 
     try:
-        want_value = model.expected_value_bytes(rule)
-    except ValueError:
-        want_value = None  # the probe: a value no one octet component can carry
-    expected = model.expected_components(rule)
-
-    try:
         wire = bytes(nlri.pack_nlri(neg))
     except Notify as exc:
-        if want_value is not None and len(want_value) > 4095:
-            return {'nontrivial': True, 'classes': classes + ['too-long:refused']}
-        if want_value is not None and len(want_value) < 4095:
-            # the whole-prefix layout of an IPv6 prefix with an offset is longer than the RFC one: the refusal is that deviation again
-            grown = sum((w[4] + 7) // 8 - (w[4] - w[2] + 7) // 8 for _, w in expected if isinstance(w, tuple) and afi == 2)
-            if grown and len(want_value) + grown >= 4095:
-                raise Violation('encode:ipv6-offset-pattern', f'{len(want_value)} octets per RFC 8956 grow by {grown} with the whole prefix behind <length, offset>, then refused: {exc}') from None
-        if want_value is not None and len(want_value) == 4095:
-            raise Violation('encode:length-4095-refused', f'a rule of exactly 4095 octets is refused: {exc}') from None
+        verdict = refused_for_size(str(exc))
+        if verdict:
+            return verdict
         raise Violation(exception_signature('encode:pack', exc), f'{exc!r} for "{text[:300]}"') from exc
     except Exception as exc:  # noqa: BLE001
         if rule['probe']:
@@ -261,7 +273,7 @@ def check_encode(rule: dict) -> dict:
     for use_counts in (None, counts):
         for candidate in ('rfc8956', 'whole-prefix') if offset_prefixes else ('rfc8956',):
             try:
-                reading = rf.decode_body(value, afi, vpn, ipv6_layout=candidate, counts=use_counts)
+                reading = rf.decode_body(value, afi, vpn, ordered=False, ipv6_layout=candidate, counts=use_counts)  # order: compare_components
             except rf.Malformed as exc:
                 if strict_error is None:
                     strict_error = exc
@@ -324,7 +336,7 @@ def check_encode(rule: dict) -> dict:
     classes += [f'width:{w}' for w in sorted(widths)]
     if any(len([s for s in rule['statements'] if s['type'] == t]) > 1 for t in {s['type'] for s in rule['statements']}):
         classes.append('keyword-twice')
-    return {'nontrivial': nontrivial, 'classes': classes, 'sample': {'text': text[:300], 'wire': wire[:80].hex(), 'length': n}}
+    return {'nontrivial': nontrivial, 'classes': classes, 'sample': {'text': text[:160], 'wire': wire[:48].hex(), 'length': n}}
 
 
 # ---------------------------------------------------------------------------- decode
@@ -500,7 +512,7 @@ def _decode_once(case: dict) -> dict:
         classes.append('length>=256')
     if mutation:
         classes.append('mutation-left-well-formed')
-    return {'nontrivial': nontrivial, 'classes': classes, 'sample': {'nlri': shown, 'rule': got.extensive()[:200]}}
+    return {'nontrivial': nontrivial, 'classes': classes, 'sample': {'nlri': shown[:100], 'rule': got.extensive()[:160]}}
 
 
 def check_decode(case: dict) -> dict:
